@@ -29,18 +29,23 @@ Fixpoint tk_starts (p l : list tk) : bool :=
   | x :: p', y :: l' => tk_eqb x y && tk_starts p' l'
   | _, _ => false
   end.
-(* replace every occurrence of the non-empty pattern, left to right *)
-Fixpoint replace_all (pat rep : list tk) (l : list tk) (fuel : nat) : list tk :=
+(* replace every occurrence of the non-empty pattern, left to right. guard: an occurrence directly
+   followed by < is the head of a generic name (DateTime in DateTime<Utc>), a different type name,
+   and is left alone *)
+Definition next_is_lt (l : list tk) : bool :=
+  match l with KP p :: _ => str_eqb p (L "<") | _ => false end.
+Fixpoint replace_all (guard : bool) (pat rep : list tk) (l : list tk) (fuel : nat) : list tk :=
   match fuel with 0 => l | S f =>
     match l with
     | [] => []
     | x :: l' =>
-        if tk_starts pat l then rep ++ replace_all pat rep (skipn (List.length pat) l) f
-        else x :: replace_all pat rep l' f
+        if tk_starts pat l && negb (guard && next_is_lt (skipn (List.length pat) l))
+        then rep ++ replace_all guard pat rep (skipn (List.length pat) l) f
+        else x :: replace_all guard pat rep l' f
     end
   end.
-Definition replace_tokens (pat rep l : list tk) : list tk :=
-  match pat with [] => l | _ => replace_all pat rep l (S (List.length l)) end.
+Definition replace_tokens (guard : bool) (pat rep l : list tk) : list tk :=
+  match pat with [] => l | _ => replace_all guard pat rep l (S (List.length l)) end.
 
 (* names occurring in a Rust type, as type_to_string prints them (every path, with its arguments) *)
 Fixpoint names_of (t : rty) : list str :=
@@ -56,9 +61,9 @@ Local Open Scope string_scope.
 Definition subst_one (is_type : bool) (n target : str) (toks : list tk) : list tk :=
   if is_type then
     let rep := lex_module target in
-    replace_tokens (lex_module n) rep (replace_tokens (lex_module (L "types." ++ n)%list) rep toks)
+    replace_tokens true (lex_module n) rep (replace_tokens true (lex_module (L "types." ++ n)%list) rep toks)
   else
-    replace_tokens (lex_module (n ++ L "Schema")%list) (lex_module (L "z." ++ target ++ L "()")%list) toks.
+    replace_tokens false (lex_module (n ++ L "Schema")%list) (lex_module (L "z." ++ target ++ L "()")%list) toks.
 Definition subst_tokens (is_type : bool) (m : mapping) (toks : list tk) : list tk :=
   fold_left (fun acc kv => subst_one is_type (fst kv) (snd kv) acc) m toks.
 
